@@ -63,7 +63,12 @@ let () =
                   | _ -> "unparseable")
         | "pretty" ->
             let p = get t.(1) and d = t.(2) = "1" in
-            res_str (c18_prettyPath p d), (fun i -> expect_str i (c18_spec_pretty p d) "pretty-table")
+            res_str (c18_prettyPath p d), (fun i ->
+              let v = expect_str i (c18_spec_pretty p d) "pretty-table" in
+              if v <> "ok" then v else
+              match unesc i with
+              | Some o when c18_eq_loc (c18_denote o) (c18_denote p) -> "ok"
+              | _ -> "pretty-denotes-other-location")
         | "prettyauto" ->
             let p = get t.(1) in
             res_str (c18_prettyPath1 p), (fun i -> expect_str i (c18_spec_pretty p (c18_spec_isdir p)) "pretty-table")
@@ -72,18 +77,38 @@ let () =
             b01 (c18_pathIndicatesDirectory p), (fun i -> expect_bool i (c18_spec_isdir p) "isdir-table")
         | "concat" ->
             let a = get t.(1) and b = get t.(2) in
-            esc (c18_concatPaths a b), (fun i -> expect_str i (c18_spec_concat a b) "concat-table")
+            esc (c18_concatPaths a b), (fun i ->
+              match unesc i with
+              | None -> "unparseable"
+              | Some o ->
+                  if o <> c18_spec_concat a b then Printf.sprintf "concat-table:expected=%s" (esc (c18_spec_concat a b))
+                  else if (not (c18_is_abs b)) && not (c18_eq_loc (c18_denote o) (c18_denote_then a b)) then "concat-denotes-other-location"
+                  else "ok")
         | "relpath" ->
             let a = get t.(1) and b = get t.(2) in
-            res_str (c18_relativePath a b), (fun i ->
+            (* observation from the message-carrying model; the plain model must agree with it (C18_relative_errors) *)
+            let m2 = (match c18_relativePath_msg a b with
+                      | C18_Result r -> esc r
+                      | C18_Throw m -> "EXC NotImplemented " ^ esc (c18_cstr m)   (* what() is a C string: cut at an embedded NUL *)
+                      | C18_Fuel -> "OUTOFFUEL") in
+            let m1 = res_str (c18_relativePath a b) in
+            let agree = (match c18_relativePath_msg a b with
+                         | C18_Result _ -> m1 = m2 | C18_Throw _ -> m1 = "EXC NotImplemented" | C18_Fuel -> false) in
+            (if agree then m2 else "MODEL-ERROR relativePath/relativePath_msg disagree"), (fun i ->
               let defined = c18_spec_rel_defined a b in
-              if i = "EXC NotImplemented" then (if defined then "refused-but-relative-path-exists" else "ok")
+              let pre = "EXC NotImplemented " in
+              let lp = String.length pre in
+              if String.length i >= lp && String.sub i 0 lp = pre then begin
+                if defined then "refused-but-relative-path-exists"
+                else if String.sub i lp (String.length i - lp) <> esc (c18_cstr (c18_spec_rel_message a b)) then "wrong-error-message"
+                else "ok" end
               else match unesc i with
                 | None -> "unparseable"
                 | Some r ->
                     if not defined then "reported-but-none-exists"
                     else if not (c18_spec_rel_accepts a b r) then "base+result-denotes-other-location"
                     else if not (c18_nf r) then "result-not-normal-form"
+                    else if c18_processPath (c18_spec_concat a r) <> c18_processPath b then "roundtrip-not-same-sanitised-string"
                     else "ok")
         | "prefix" | "prefix_vec" | "prefix_list" | "prefix_sv" | "prefix_deque" ->
             (* any character container, prefix handed over as const char* (cut at the first NUL) *)
@@ -96,11 +121,13 @@ let () =
             (* format <fmt> <kind> <arg> <F> : F is the full expansion (what snprintf would produce),
                or "!" when snprintf reports a conversion error (negative return value) *)
             if t.(4) = "!" then
-              (match c18_formatString_err None with None -> "EXC Exception" | Some r -> esc r),
-              (fun i -> if i = "EXC Exception" then "ok" else "format-error-not-reported")
+              (match c18_formatString_err None with None -> "EXC Exception " ^ esc c18_msg_format | Some r -> esc r),
+              (fun i -> if i = "EXC Exception " ^ esc c18_msg_format then "ok"
+                        else if String.length i >= 13 && String.sub i 0 13 = "EXC Exception" then "wrong-error-message"
+                        else "format-error-not-reported")
             else
             let f = get t.(4) in
-            (match c18_formatString_err (Some f) with None -> "EXC Exception" | Some r -> esc r),
+            (match c18_formatString_err (Some f) with None -> "EXC Exception " ^ esc c18_msg_format | Some r -> esc r),
             (fun i -> expect_str i (c18_cstr f) "format")
         | _ -> "UNKNOWN-OP", (fun _ -> "unknown-op")
       with e -> "MODEL-ERROR " ^ Printexc.to_string e, (fun _ -> "model-error") in
